@@ -186,12 +186,43 @@ fn family_space(ctx: &Ctx, max: usize) {
     );
 }
 
+/// shapes well beyond 8x8 (entry counts in the hundreds): any size-gated path of construction or lookup is crossed
+fn large_family_space(ctx: &Ctx) {
+    let shapes: Vec<(usize, usize)> = vec![(9, 9), (12, 7), (7, 12), (17, 20), (20, 17), (33, 16), (16, 33), (40, 5), (5, 40), (25, 25)];
+    let mut cases = vec![];
+    for &(r, c) in &shapes {
+        for f in 1..11 {
+            cases.push((r, c, f));
+        }
+    }
+    ctx.lattice(
+        &format!("construction, shapes {:?} through 10 structured pattern families x 8 triplet orders + from_vecs", shapes),
+        cases.len() as u64,
+        |i| format!("{:?}", cases[i as usize]),
+        |i, acc| {
+            let (r, c, f) = cases[i as usize];
+            let cells = family_mask(r, c, f);
+            if cells.len() > 16 {
+                acc.nontriv("more than 16 entries");
+            }
+            if cells.len() > 64 {
+                acc.nontriv("more than 64 entries");
+            }
+            let key = || format!("{}x{} family {} ({} entries)", r, c, f, cells.len());
+            for o in fixed_orders(cells.len(), &cells) {
+                judge(acc, i, key, || build_and_check(r, c, &cells, &o));
+            }
+            judge(acc, i, key, || from_vecs_check(r, c, &cells));
+        },
+    );
+}
+
 fn main() {
     let ctx = Ctx::from_args("C06");
     ctx.level("model_checking");
-    ctx.rule("E1: every shape r x c with r*c <= 12 (quick) / r,c <= 4 (thorough) and EVERY sparsity pattern, built by from_triplets in every permutation of the triplet list (nnz <= 5) or 8 fixed orders, and by from_vecs; shapes up to 8x8 through 11 pattern families; all views (get for every (i,j), to_triplets, to_dense, col_index) and the CSC invariants against a BTreeMap. E2: BFS over histories of insert (fresh and overwriting) / scale / transpose on real Sparse<Rat> objects starting from empty 2x3, 3x3, 1x4 matrices, state = the complete public CSC arrays. Non-trivial: empty rows/columns, empty matrix, rectangular shapes, triplet lists out of column order, overwrites, unsorted rows inside a column.");
+    ctx.rule("E1: every shape r x c with r*c <= 12 (quick) / r,c <= 4 (thorough) and EVERY sparsity pattern, built by from_triplets in every permutation of the triplet list (nnz <= 5) or 8 fixed orders, and by from_vecs; shapes up to 8x8 through 11 pattern families and ten shapes up to 40 rows/columns (entry counts to 625); all views (get for every (i,j), to_triplets, to_dense, col_index) and the CSC invariants against a BTreeMap. E2: BFS over histories of insert (fresh and overwriting) / scale / transpose on real Sparse<Rat> objects starting from empty 2x3, 3x3, 1x4 matrices, state = the complete public CSC arrays. Non-trivial: empty rows/columns, empty matrix, rectangular shapes, triplet lists out of column order, overwrites, unsorted rows inside a column.");
     ctx.assume("duplicate triplets are outside the claim (the property speaks of duplicate-free entry sets)");
-    ctx.require(&["pattern with an empty column", "pattern with an empty row", "empty matrix", "rectangular", "triplet list not in column order", "overwrite of an existing entry", "fresh insert", "transpose in a history", "state with unsorted rows inside a column", "large shape", "typed sparse case (f64, Complex<f64>)"]);
+    ctx.require(&["pattern with an empty column", "pattern with an empty row", "empty matrix", "rectangular", "triplet list not in column order", "overwrite of an existing entry", "fresh insert", "transpose in a history", "state with unsorted rows inside a column", "large shape", "more than 64 entries", "typed sparse case (f64, Complex<f64>)"]);
     let lim = ctx.pick(12, 16);
     for r in 0..=4usize {
         for c in 0..=4usize {
@@ -201,6 +232,7 @@ fn main() {
         }
     }
     family_space(&ctx, 8);
+    large_family_space(&ctx);
     let depth = ctx.pick(5, 7);
     run_bfs(&ctx, "insert/scale/transpose histories", &[(2, 3), (3, 3), (1, 4)], Mode::Views, depth, ctx.pick(1_500_000, 30_000_000), ctx.quick());
     typed_spaces(&ctx, &[(2, 2), (2, 3), (3, 2), (1, 4), (3, 3)], false);
